@@ -308,6 +308,14 @@ def closeOp (s : Server) (wid : Nat) : Server × Bool :=
   | some (k, (_, f)) =>
     ({ s with final := setK k f s.final, incoming := eraseK k s.incoming }, true)
 
+/-- the HTTP storage server's PATCH handler (`http_server.write_share_data`): `bucket.write(...)`,
+    and `bucket.close()` as soon as `write` answers "finished" (201 CREATED instead of 200 OK) -/
+def httpWriteOp (s : Server) (wid off : Nat) (data : Bytes) : Server × WriteRes :=
+  let r := writeOp s wid off data
+  match r.2 with
+  | .ok true => ((closeOp r.1 wid).1, r.2)
+  | _ => r
+
 /-- `bw.abort()` / `bw.disconnected()` / `_abort_due_to_timeout()`: remove the incoming file and
     release the reservation; silently nothing on a closed handle. -/
 def abortOp (s : Server) (wid : Nat) : Server :=
